@@ -392,3 +392,10 @@ Fixpoint run_ops (w : world) (ops : list op) : list (option (float * Z)) :=
   | o :: ops' => let '(w', r) := step w o in r :: run_ops w' ops'
   end.
 Definition world0 : world := mk_world [] [].
+
+(* ------------------------------------------------------------------ events given as an Events object *)
+(* event_related.py eta / ets, Events branch: idx = (events.time / sampling_interval).astype(int) — the
+   quotient of two picosecond counts (exact in binary64 below 2^53 ps for an on-grid event, truncated
+   otherwise): the sample the event-locked segment is taken from, which the output axis labels
+   offset * dt + k * dt, i.e. the event's own sample is at time 0. *)
+Definition event_sample (ev_ps dt : Z) : Z := ev_ps / dt.
